@@ -348,6 +348,57 @@ theorem absWrite_chain (hbs : ∀ i, 0 < bsOf i) (hH : ∀ x, (H x).length = 0x2
           · rw [hslot_eq, hpad]; exact hs
           · rw [hslot_eq]; exact hz
 
+/-- … and at every level at or above the written one, a chain that was intact stays intact -/
+theorem absWrite_chain_all (hbs : ∀ i, 0 < bsOf i) (hH : ∀ x, (H x).length = 0x20) (hnz : ¬ ZeroHash H) :
+    ∀ (idx offset : Nat) (data : Bytes) (L : Nat → Bytes) (master : List Bytes) (L' : Nat → Bytes) (master' : List Bytes),
+      0 < data.length → offset + data.length ≤ (L idx).length →
+      (∀ i, i < idx → nblocks (L (i + 1)).length (bsOf (i + 1)) * 0x20 ≤ (L i).length) →
+      absWrite H bsOf idx offset data (L, master) = .ok (L', master') →
+      ∀ lvl, lvl ≤ idx → ∀ b, b * bsOf lvl < (L lvl).length → chainOK H bsOf master L lvl b → chainOK H bsOf master' L' lvl b := by
+  intro idx
+  induction idx with
+  | zero =>
+    intro offset data L master L' master' hlen hin hgeo h lvl hl b hb hc
+    have : lvl = 0 := by omega
+    subst this
+    exact (absWrite_chain H bsOf hbs hH hnz 0 offset data L master L' master' hlen hin hgeo h).2.2.2.2 b hb (Or.inr hc)
+  | succ up ih =>
+    intro offset data L master L' master' hlen hin hgeo h lvl hl b hb hc
+    by_cases htop : lvl = up + 1
+    · subst htop
+      exact (absWrite_chain H bsOf hbs hH hnz (up + 1) offset data L master L' master' hlen hin hgeo h).2.2.2.2 b hb (Or.inr hc)
+    · have hlu : lvl ≤ up := by omega
+      unfold absWrite at h
+      simp only at h
+      rw [absLevelWrite_in _ _ _ hin] at h
+      generalize hsb : offset / bsOf (up + 1) = sb at h
+      generalize heb : max ((offset + data.length + bsOf (up + 1) - 1) / bsOf (up + 1) - 1) sb = eb at h
+      obtain ⟨r1, r2, r3, r4⟩ := touched_range offset data.length (bsOf (up + 1)) (hbs _) hlen
+      rw [hsb] at r1 r2 r3 r4
+      rw [heb] at r1 r3 r4
+      have hhl : ∀ x, x ∈ blockHashes H (overlay (L (up + 1)) offset data) (bsOf (up + 1)) sb (eb + 1 - sb) → x.length = 0x20 := by
+        intro x hx
+        simp only [blockHashes, List.mem_map] at hx
+        obtain ⟨i, _, hi⟩ := hx
+        rw [← hi]; exact hH _
+      have hHF := flatten_hash_length _ hhl
+      rw [blockHashes_length] at hHF
+      have hebn : eb < nblocks (L (up + 1)).length (bsOf (up + 1)) := lt_nblocks _ _ _ (hbs _) (by omega)
+      have hgeo_up := hgeo up (by omega)
+      have hfit : sb * 0x20 + (eb + 1 - sb) * 0x20 ≤ (L up).length := by
+        have : sb * 0x20 + (eb + 1 - sb) * 0x20 = (eb + 1) * 0x20 := by rw [← Nat.add_mul]; congr 1; omega
+        have : (eb + 1) * 0x20 ≤ nblocks (L (up + 1)).length (bsOf (up + 1)) * 0x20 := Nat.mul_le_mul_right _ (by omega)
+        omega
+      have hc1 : chainOK H bsOf master (fun j => if j = up + 1 then overlay (L (up + 1)) offset data else L j) lvl b :=
+        chain_congr H bsOf master L _ lvl b (fun j hj => by simp only [show ¬ (j = up + 1) by omega, if_false]) hc
+      exact ih (sb * 0x20) _ _ master L' master' (by rw [hHF]; omega)
+        (by simp only [show ¬ (up = up + 1) by omega, if_false]; rw [hHF]; exact hfit)
+        (by
+          intro i hi
+          simp only [show ¬ (i + 1 = up + 1) by omega, show ¬ (i = up + 1) by omega, if_false]
+          exact hgeo i (by omega)) h lvl hlu b
+        (by simp only [show ¬ (lvl = up + 1) by omega, if_false]; exact hb) hc1
+
 theorem nblocks_valid (size bs b : Nat) (hbs : 0 < bs) (h : b < nblocks size bs) : b * bs < size := by
   by_cases hs : size = 0
   · unfold nblocks at h; rw [hs, Nat.zero_add, Nat.div_eq_of_lt (by omega)] at h; omega
